@@ -231,7 +231,7 @@ def incbytes_case(draw):
     return {
         'size': size,
         'seed': draw(st.integers(0, 2 ** 32)),
-        'where': draw(st.sampled_from(['adjacent', 'incdir', 'subdir_adjacent'])),
+        'where': draw(st.sampled_from(['adjacent', 'incdir', 'subdir_adjacent', 'symlink_dotdot'])),
         'cwd': draw(st.sampled_from(['srcdir', 'root', 'elsewhere', 'elsewhere_decoy'])),
         'main_rel': draw(st.booleans()),
         'before': draw(st.integers(0, 3)),
@@ -257,13 +257,22 @@ def judge_incbytes(c, res):
         elif c['where'] == 'incdir':
             target = os.path.join(incdir, name)
             include_dirs = [incdir]
+        elif c['where'] == 'symlink_dotdot':
+            # src/link -> vendor/pkg, written link/../<name>: the operating system resolves that to vendor/<name>; a textual
+            # collapse of "link/.." would name src/<name> instead (an equally long decoy sits there)
+            os.makedirs(os.path.join(root, 'vendor', 'pkg'))
+            os.symlink(os.path.join(root, 'vendor', 'pkg'), os.path.join(srcdir, 'link'))
+            target = os.path.join(root, 'vendor', name)
+            written = 'link/../' + name
+            with open(os.path.join(srcdir, name), 'wb') as f:
+                f.write(b'DECOY' + blob(c['seed'] + 2, max(0, c['size'] - 5)))
         else:
             target = os.path.join(srcdir, 'sub', name)
             written = 'sub/' + name
         with open(target, 'wb') as f:
             f.write(content)
         decoy = b'DECOY' + blob(c['seed'] + 1, max(0, c['size'] - 5))
-        if c['cwd'] == 'elsewhere_decoy':
+        if c['cwd'] == 'elsewhere_decoy' and c['where'] != 'symlink_dotdot':
             os.makedirs(os.path.join(other, 'sub'), exist_ok=True)
             with open(os.path.join(other, written), 'wb') as f:
                 f.write(decoy)
@@ -320,7 +329,7 @@ def run(tier):
     chk.rule = ('(1) %d seeded data lines (bytes/shorts/ints/longs/longlongs, db/dh/dw/dd, pack x {<,>} x bBhHiIlLqQ) with values dense at '
                 'both range ends, just outside, far outside and interior, in decimal/hex/binary: own int.to_bytes image or mandatory '
                 'refusal; (2) %d Hypothesis strings over ASCII, Latin-1, BMP and astral characters and the documented escapes: UTF-8 '
-                'of own escape processing; (3) %d include_bytes file trees (file adjacent / in a -i directory / in a sub-directory; cwd = '
+                'of own escape processing; (3) %d include_bytes file trees (file adjacent / in a -i directory / in a sub-directory / behind symlinkdir/.. ; cwd = '
                 'source dir, root, elsewhere, elsewhere with a same-named decoy; main path absolute or relative). non-trivial = value '
                 'within 2 of a range end, string with a non-ASCII character or escape, include_bytes with cwd != source dir; '
                 'distinct by line text / string / parameter tuple' % (n_num, n_str, n_inc))
